@@ -159,6 +159,7 @@ pub fn copy_then_meld() {
     {
         let src = a.ad.read().unwrap();
         let mut pending: Vec<String> = src.list_objects("").unwrap();
+        pending.sort();
         while !pending.is_empty() && sym::any_bool() {
             let f = pending.remove(sym::choose(pending.len()));
             t.ad.write().unwrap().write_object(&f, &src.read_object(&f, 0, 0).unwrap()).unwrap();
@@ -195,7 +196,9 @@ pub fn own_pack_required() {
     let mut c = Rep::new();
     c.pull(&b);
     assert!(c.m.get_all_objects().contains("xb"), "b's commit not applied");
-    let mut pending: Vec<String> = a.ad.read().unwrap().list_objects("").unwrap();
+    // block file first, pack file second (listing order is hash dependent)
+    let mut pending: Vec<String> = a.ad.read().unwrap().list_objects(".delta").unwrap().into_iter().map(|f| f + ".delta").collect();
+    pending.extend(a.ad.read().unwrap().list_objects(".pack").unwrap().into_iter().map(|f| f + ".pack"));
     let total = pending.len();
     while !pending.is_empty() {
         let f = pending.remove(sym::choose(pending.len()));
